@@ -232,6 +232,9 @@ func convertMbtiles(logger *log.Logger, input string, output string, deduplicate
 			bar.Add(1)
 		}
 	}
+	if len(resolve.Entries) == 0 {
+		return fmt.Errorf("no tiles in MBTiles archive: every tile is empty")
+	}
 	_, err = finalize(logger, resolve, header, tmpfile, output, jsonMetadata)
 	if err != nil {
 		return err
